@@ -212,7 +212,15 @@ def run_case(case, rec):
     # ---- inverse relation
     if Pb is not None and 5e3 <= Pb[0] <= 3e6:
         r = call('inverse:solve_Ty(solve_Py)', lambda: bp.solve_Ty(z.copy(), Pb[0]))
-        if r is not None and Tlo + 1 < T0 < Thi - 1 and 5e3 <= Pb[0] <= 3e6: rec.check(abs(r[0] - T0) <= 1e-4, 'inverse', f'bubble/{cls}', f'solve_Ty(z, solve_Py(z,{T0}).P={Pb[0]!r}).T = {r[0]!r}', residual=abs(r[0] - T0))
+        if r is not None and Tlo + 1 < T0 < Thi - 1 and 5e3 <= Pb[0] <= 3e6:
+            isfx = ''
+            if abs(r[0] - T0) > 1e-4:
+                # same classification as the bubble-residual clause: is the returned temperature a root of the solver's own error function?
+                try:
+                    zn = z / z.sum(); own = bp._T_error(r[0], Pb[0], z / Pb[0], zn, np.asarray(r[1], float).copy())
+                    if abs(own) > 1e-7 or not np.isfinite(own): isfx = '/unconverged-iterate'
+                except Exception: isfx = '/unconverged-iterate'
+            rec.check(abs(r[0] - T0) <= 1e-4, 'inverse', f'bubble/{cls}{isfx}', f'solve_Ty(z, solve_Py(z,{T0}).P={Pb[0]!r}).T = {r[0]!r}', residual=abs(r[0] - T0))
     if Pd is not None and 5e3 <= Pd[0] <= 3e6:
         r = call('inverse:solve_Tx(solve_Px)', lambda: dp.solve_Tx(z.copy(), Pd[0]))
         if r is not None and Tlo + 1 < T0 < Thi - 1:
